@@ -10,7 +10,11 @@
    FlowIRExperimentConfiguration (active platform default and p1) and resolved with the real
    FlowIRConcrete.get_component_configuration / get_component_variables for both platforms; values, Python types,
    loader verdict and error classes are compared with the specification.
-3. typed-option catalogue (Layering.tla: TypedOptions): every option that may take its value from a variable and has a
+3. histories (families history-*): for documents with stage-level blueprints and a sibling component of the same stage, TLC
+   enumerates every sequence of 2 (thorough 3) read-only calls -- query(platform, component, inject missing fields or not),
+   instance(platform, inject or not), replicate(platform) -- on ONE object; the driver executes them on one FlowIRConcrete,
+   requires the stored document to be unchanged after every call and every query to answer the pure layering (ResultV).
+4. typed-option catalogue (Layering.tla: TypedOptions): every option that may take its value from a variable and has a
    declared non-string type is given its value through a variable (chain length 1 and 2, native and textual literals).
 """
 import copy
@@ -382,8 +386,12 @@ def check_query(case, concrete, Q, exp, where, rpq, comp="c", inject=True):
             if got != want or type(got) is not type(want):
                 out.append((order_key([chain], got, kind), "%s: resolved variable %s should be %r, real %r" % (where, VNAME[s], want, got), rpq))
         else:
-            got = get_path(r, paths[s])
             k = kind if s == "o" else "str"
+            try:
+                got = get_path(r, paths[s])
+            except KeyError:
+                out.append(("order:opt:exp=%s:got=missing" % chain[0]["l"], "%s: option %s is missing from the resolved configuration" % (where, paths[s]), rpq))
+                continue
             if chain[0]["l"] == "builtin":
                 want = get_path(builtin, paths[s])
                 if got != want:
@@ -702,7 +710,11 @@ def run(tier):
 
     results = execute(chk, all_cases)
     for case, res in zip(all_cases, results):
-        chk.evaluated((case["family"], brief(case), case["kind"], case["litform"]), n=4)
+        if case.get("hist"):
+            chk.evaluated((case["family"], brief(case), json.dumps([(o["op"], o["plat"], o["comp"], o["inject"]) for o in case["hist"]])), n=len(case["hist"]))
+            chk.trace_validated()
+        else:
+            chk.evaluated((case["family"], brief(case), case["kind"], case["litform"]), n=4)
         for key, what, rp in res:
             chk.violation(key, what, rp)
     for cc, key, what, rp in run_catalogue(cat_cases):
@@ -741,6 +753,10 @@ def replay(path):
         for cc, key, what, r in run_catalogue([rp["catalogue"]]):
             chk.violation(key, what, r)
         chk.evaluated(("catalogue", rp["catalogue"]["path"]))
+    elif rp["case"].get("hist"):
+        chk.evaluated(("replay", brief(rp["case"])))
+        for key, what, r in run_history(rp["case"]):
+            chk.violation(key, what, r)
     else:
         os.makedirs(os.path.join(chk.scratch, "uservars"), exist_ok=True)
         res = run_case(rp["case"], os.path.join(chk.scratch, "uservars"), 0, only={"active": rp.get("active"), "query": rp.get("query"), "variant": rp.get("variant", 0)})
